@@ -720,6 +720,40 @@ def oracle_fin_sent(case, impl):
     return hits
 
 
+def oracle_fin_answered(case, impl):
+    """C17: "a peer's FIN ... is acknowledged and answered with the endpoint's own FIN". Once the endpoint is in
+    LastAck (the peer's FIN was accepted in sequence), on a working transport: a poll may not end Pending with the
+    endpoint's FIN never transmitted while no retransmission timer is armed - nothing is in flight then, no ACK
+    can arrive and no timer will fire, so the FIN would never be sent."""
+    import re
+    tr = Trace(case, impl)
+    hits = []
+    if any(l.startswith(("vs tmode", "vs chanclose")) for l in case):
+        return []
+    fin_sent = set()
+    for ev in tr.events:
+        if ev["op"] == "new":
+            fin_sent = set()
+        if ev["op"] != "poll" or "dgrams" not in ev:
+            continue
+        for d in ev["dgrams"]:
+            if d["type"] == 1:
+                fin_sent.add(d["seq"])
+        if not ev["res"].startswith("pending"):
+            continue
+        m = re.search(r"st=LastAck;\{;our_fin:;(\d+)", ev["out"])
+        if not m:
+            continue
+        fin = int(m.group(1))
+        if fin in fin_sent:
+            continue
+        if ev["fp"].get("t_rtx") == "-":
+            hits.append({"sig": {"oracle": "fin_answered", "what": "fin_never_sent_in_last_ack_nothing_in_flight"},
+                         "text": f"poll at t={ev['t']} ns: state LastAck with our FIN = {fin}: the peer's FIN was accepted, yet our FIN was never transmitted, and no retransmission timer is armed (last_sent_seq_nr={ev['fp'].get('lss')}): nothing will ever send it"})
+            break
+    return hits
+
+
 def oracle_zero_window_probe(case, impl):
     """C02: progress does not hinge on one datagram: when accepted bytes wait behind a zero peer window with nothing
     in flight, SOME timer must be armed that will make the sender probe the window - otherwise the loss of the single
@@ -1814,6 +1848,7 @@ ALL = {
     "slow_start": oracle_slow_start,
     "zero_window_probe": oracle_zero_window_probe,
     "fin_sent": oracle_fin_sent,
+    "fin_answered": oracle_fin_answered,
     "nagle": oracle_nagle,
     "isn_relabel": oracle_isn_relabel,
     "task_ends": oracle_task_ends,
